@@ -88,9 +88,9 @@ where
             let guard = map.guard();
 
             while let Some((key, value)) = access.next_entry()? {
-                if let Some(_old_value) = map.insert(key, value, &guard) {
-                    unreachable!("Serialized map held two values with the same key");
-                }
+                // input is not necessarily our own output: if it repeats a key, the last value
+                // wins (as it does for std's HashMap)
+                map.insert(key, value, &guard);
             }
         }
 
